@@ -290,6 +290,7 @@ async def seeder(w, p, reader, writer, we_connect):
             await send(w, writer, my_hs, chunk)
         t_hs = time.time()
         hs = await asyncio.wait_for(reader.readexactly(68), 30)
+        p["_admitted"] = True
         if we_connect:
             w.handshake_reply_s.append({"port": p["port"], "after_s": round(time.time() - t_hs, 2), "at_s": round(t_hs - T0, 2), "good_replies_then": w.good_replies})
         if p.get("kind") == "visitor":
@@ -430,6 +431,22 @@ async def second_connection(w, p):
 
 async def incoming_peer(w, p):
     await asyncio.sleep(p.get("connect_delay_ms", 300) / 1000)
+    if p.get("retry_s"):
+        # a peer that keeps trying to connect in until the client takes it
+        t_end = time.time() + p.get("retry_for_s", 600)
+        tries = 0
+        while time.time() < t_end and not p.get("_admitted"):
+            tries += 1
+            try:
+                reader, writer = await asyncio.open_connection("127.0.0.1", 6881)
+                await seeder(w, dict(p, retry_s=None) if False else p, reader, writer, True)
+            except OSError:
+                pass
+            if p.get("_admitted"):
+                break
+            await asyncio.sleep(p["retry_s"])
+        w.note("retrying peer", p["port"], "admitted" if p.get("_admitted") else "never admitted", "after", tries, "attempts")
+        return
     for _ in range(40):
         try:
             reader, writer = await asyncio.open_connection("127.0.0.1", 6881)
@@ -443,8 +460,13 @@ async def incoming_peer(w, p):
     if p.get("kind") == "mute":
         # a port scanner / half-open client: connects, says nothing, keeps the connection open
         w.hostile.append({"port": p["port"], "kind": "mute", "expect_close": False, "done": True})
+        t_end = time.time() + p.get("hold_s", 60)
         try:
-            await asyncio.wait_for(reader.read(1 << 16), p.get("hold_s", 60))
+            while time.time() < t_end:
+                b = await asyncio.wait_for(reader.read(1 << 16), max(0.1, t_end - time.time()))
+                if not b:
+                    w.note("mute", p["port"], "closed by the client")
+                    break
         except (asyncio.TimeoutError, ConnectionError, OSError):
             pass
         writer.close()
